@@ -61,6 +61,9 @@ def install(eng, faults=FAULTS, fault_model="both"):
             s2.ghost["tcsetattr_calls"] = s2.ghost.get("tcsetattr_calls", 0) + 1
             if not is_sym(when) and when == _termios.TCSAFLUSH:
                 s2.ghost["stale_input"] = False        # TCSAFLUSH: change after all output is sent, DISCARDING all queued input
+                s2.ghost["input_discards"] = s2.ghost.get("input_discards", 0) + 1
+            elif is_sym(when):
+                raise Unsupported("tcsetattr with a symbolic `when`")
         fault(e, s, effect, restoring=True)
         s = e.fork(s)
         effect(s)
@@ -75,6 +78,7 @@ def install(eng, faults=FAULTS, fault_model="both"):
         if len(a) > 1 and not is_sym(a[1]) and a[1] in (_termios.TCIFLUSH, _termios.TCIOFLUSH):
             s = e.fork(s)
             s.ghost["stale_input"] = False
+            s.ghost["input_discards"] = s.ghost.get("input_discards", 0) + 1
         return [(None, s)]
     ns = {n: getattr(_termios, n) for n in ("ECHO", "ICANON", "VMIN", "VTIME", "TCSANOW", "TCSAFLUSH", "TCSADRAIN", "TIOCGWINSZ", "TCIFLUSH", "TCOFLUSH", "TCIOFLUSH",
                                             "ISIG", "ECHONL", "OPOST")}
